@@ -17,6 +17,12 @@ CHECKS = {
  "C04": dict(cat="exploration", tech="exhaustive 1-edit (and 2-edit token-level) mutation neighbourhoods of ~45 small seeds + parametric adversarial families at every arithmetic/allocation/recursion site, nine byte-level entry points, isolated worker processes with time/stack/allocation budgets, lopdf built with overflow checks",
    text="Every mutant of the stated edit operators at every position of every seed, and every member of the adversarial families, is fed to the real entry point in a worker process; the outcome must be a return (value or error) within 2 s + 1 s/64 KiB, 8 MiB stacks and 64*len+16 MiB per allocation request. Panics, aborts, stack overflows, hangs and oversized requests are violations, confirmed in a fresh worker before being reported. All byte strings cannot be exhausted: the claim is for the enumerated neighbourhoods and families.",
    note="budgets are harness thresholds (DESIGN §2.5); seeds come from the reference writer, lopdf's writer and the repository assets"),
+ "C05": dict(cat="model_checking", tech="explicit-state BFS (depth 4) over the protocol {encrypt, save+load, decrypt(user), decrypt(owner), decrypt(wrong1), decrypt(wrong2)} on cloned real Documents from every (document x handler configuration x password pair x permission set x xref format) start tuple, abstract state tracked next to the real one",
+   text="For every start tuple of the menus (6 documents x 57 handler configurations x 9 password pairs x permission sets x 2 formats) all transition sequences to depth 4 are executed on the real code; in every state the invariants of the statement are checked: ciphertext differs from plaintext for every >=16-byte non-identity leaf, decrypt with user or owner password restores every string and stream byte for byte and removes the encryption dictionary, a wrong password is rejected and leaves the document unchanged, reloads behave consistently.",
+   note="states are deduplicated on the abstract state (sound because the invariants pin the real document to it up to random IVs/salts); R6 tuples are thinned in quick because of their cost; non-Latin R<=4 passwords hit the open finding nonlatin-password-collapse"),
+ "C06": dict(cat="exploration", tech="bounded-exhaustive differential testing against an independent ISO 32000 security handler (harness/src/refcrypt.rs): lopdf encrypts -> reference authenticates and decrypts; reference encrypts (enumerated salts/IVs) -> lopdf authenticates and decrypts; deterministic fields compared for equality, randomised fields validated",
+   text="Over the configuration menus (revisions 2-6, all 12 V2 key lengths, RC4/AESV2/AESV3/Identity per strings and streams, EncryptMetadata, permission words, file identifiers of length 0/16/32, 11 password pairs incl. empty owner) every case is run in both directions and the plaintext must be recovered by the other side; O, U (R2), U[0..16] (R3-4), file key and P must be equal to the reference's, R5/R6 U/O/UE/OE/Perms must validate.",
+   note="the reference handler is only as independent as the harness's reading of ISO 32000-1/-2; its primitives are self-tested against FIPS/RFC vectors; no third-party PDF tool exists in the sandbox to arbitrate"),
  "C07": dict(cat="model_checking", tech="explicit-state enumeration of all revision histories up to depth k (tree of history prefixes), two producers: independent reference writer (Prev-chained tables/streams, object streams) and IncrementalDocument replay; every node loaded by the real reader against the model 'newest definition wins'",
    text="All histories of <=2 (quick) / <=3 (thorough) revisions over 3 bases x 24/48 revision kinds x xref styles: the complete file of every history prefix is loaded and must yield, per object number, the newest definition; IncrementalDocument saves must keep the previous bytes as prefix, append only changed objects with a section whose Prev is the previous startxref (checked by the strict reader), leave the previous view untouched and reload to the model.",
    note="trusts reference writer + strict reader; schedule pinned through hook H1 (Sorted) so the verdict cannot depend on thread timing; no freed objects / hybrid files"),
@@ -26,9 +32,15 @@ CHECKS = {
  "C09": dict(cat="exploration", tech="bounded-exhaustive enumeration with reference encoders as generators: all 2^24 predictor byte triples per PNG filter type and bpp, all small frame geometries x filter assignments, all ASCII85 inputs of length <=3 (+ stratified/all 4-byte groups), LZW width-switch and reset boundaries, all 39 filter chains; explicit-state BFS over compress/decompress/set_content operations",
    text="Reference encoders written from the PNG, LZW/TIFF, Adobe ASCII85 and zlib definitions produce the encoded stream from known plain data; lopdf's decode path must return the original bytes for every case of the stated spaces; a BFS over stream-editing operations checks Length == content length, lossless compress/decompress and that compress never grows a stream in every reachable state.",
    note="trusts harness/src/refcodec.rs (self-tested on every run against published vectors and flate2's inflater); TIFF predictor 2 and BitsPerComponent < 8 are outside the statement"),
+ "C10": dict(cat="exploration", tech="bounded-exhaustive enumeration of small tagged reference graphs (all number subsets, all role assignments, all page-id permutations, shared/cyclic/dangling references, bookmarks) x start values; the renaming bijection is recovered from immutable tags",
+   text="For every enumerated document x bookmark list x start value the real renumber_objects / renumber_objects_with is run; new numbers must be exactly start..start+n-1 with generations kept and max_id the last, trailer and every reachable object must equal the original under the recovered one-to-one renaming, bookmark targets and page order must follow it, and dangling references must keep resolving to nothing.",
+   note="a dangling reference may also come back as null (equivalent per ISO 32000 7.3.10); graphs have <=4/5 objects plus full page-tree families"),
  "C11": dict(cat="model_checking", tech="explicit-state breadth-first search over sequences of ~40 editing-operation instances from 4 start documents on the real Document next to an abstract model, states deduplicated by canonical digest, 8 invariants evaluated after every transition",
    text="Every operation sequence up to depth 3 (quick) / 4 (thorough) over the alphabet {allocate id, add, set, delete object, remove annotation, prune, delete pages, renumber, compress/decompress, add/change/append page content, add xobject / graphics state, bookmarks + build_outline, delete zero-length streams, save+reload in both formats} is executed on the real code; fresh ids, preservation of reachable objects outside the documented footprint, no dangling reference after deletion, exact pruning, page-tree Counts, page content vs the model, effective (own or inherited) resources and save validity (strict reader + reload) are checked in every state.",
    note="trusts the harness's own reachability, page-tree walk and isomorphism routines; delete_object is applied only to non-structural objects, set_object only outside the page tree's closure (domain of the statement)"),
+ "C12": dict(cat="exploration", tech="bounded-exhaustive enumeration of all ordered page trees with <=7/8 nodes x leaf typings x direct/indirect Kids x id orders, depth chains at the documented limit, and every single malformed mutation of every tree with <=5/6 nodes; Count-extreme cases in rlimited child processes",
+   text="page_iter() and get_pages() must equal the harness's own depth-first leaf list numbered 1..n on every valid tree; on every malformed variant the iterator must finish within objects.len()+1 calls, yield only existing /Type /Page dictionaries and never panic, abort or allocate by untrusted counts.",
+   note="'valid' means at most 256 pending sibling lists (the code's documented limit); beyond that only termination and type-safety are required"),
  "C13": dict(cat="exploration", tech="deviation-bounded exhaustive typed-chaos exploration: every dictionary entry / array element / object of a query-complete skeleton document x 18 value shapes + a reference to every object (all link cycles), pairs in thorough; all 22 read-only query groups per case in isolated worker processes with time, stack and allocation budgets",
    text="Each mutant document is built in a worker process and every public read-only query is called; the outcome must be a return (value or error) within 2 s, 8 MiB stacks and the allocation allowance; panics, aborts (stack overflow), hangs and oversized allocation requests are violations, pinpointed per query and replayed in a fresh worker.",
    note="the skeleton fixes which keys exist; keys the query code reads that the skeleton lacks are listed in the evidence; budgets are thresholds chosen by the harness (DESIGN §2.5)"),
